@@ -555,6 +555,7 @@ def make_sampled_cfg(seed, i):
         up["logging.save_diagnostic_info"] = True
         up["logging.save_poisedness"] = bool(r() < 0.5)
         up["logging.save_xk"] = bool(r() < 0.3)
+    campaign.maybe_failpoint(cfg, rng, p=0.1)
     return cfg
 
 
